@@ -1,7 +1,7 @@
 (* C17 — input parameters are merged into the data without loss or silent override. Pinned statements only. *)
 From Coq Require Import Permutation.
-From GV.Model Require Import Merge.
-From GV.Proofs Require Import MergeProps.
+From GV.Model Require Import Merge Erase.
+From GV.Proofs Require Import MergeProps EraseProps EraseMerge.
 
 (* two maps without a common key: the union, receiver's entries first, nothing lost or changed *)
 Theorem C17_merge_disjoint : forall p keys vals p2 keys2 other,
@@ -48,3 +48,26 @@ Theorem C17_param_order_same_map : forall params params' data m m',
   Permutation (top_entries m) (top_entries m').
 Proof. exact param_order_same_map. Qed.
 Print Assumptions C17_param_order_same_map.
+
+(* ---- the verdict on parameter files + data is the verdict on the union document ---- *)
+
+(* parts loaded separately (each with its own paths and positions) and merged are the union loaded as one document, up to paths *)
+Theorem C17_merge_of_loaded_parts_is_the_union : forall m1 m2 p q r,
+  no_clash (map fst m1) (map fst m2) ->
+  exists m, merge (annotate p (VMap m1)) (annotate q (VMap m2)) = Done m /\ er m = er (annotate r (VMap (m1 ++ m2))).
+Proof. exact merge_of_loaded_parts. Qed.
+Print Assumptions C17_merge_of_loaded_parts_is_the_union.
+
+(* and evaluation looks at a document only through its content (EraseProps.v), so every rules file gives the merged input
+   the verdict it gives the union document *)
+Theorem C17_verdict_of_merged_parts_is_verdict_of_union : forall re conv prog fuel m1 m2 p q r m,
+  no_clash (map fst m1) (map fst m2) ->
+  merge (annotate p (VMap m1)) (annotate q (VMap m2)) = Done m ->
+  verdict (eval_file re conv prog fuel m) = verdict (eval_file re conv prog fuel (annotate r (VMap (m1 ++ m2)))).
+Proof. exact verdict_of_merged_parts. Qed.
+Print Assumptions C17_verdict_of_merged_parts_is_verdict_of_union.
+
+Theorem C17_verdict_depends_on_content_only : forall re conv prog fuel d1 d2,
+  er d1 = er d2 -> verdict (eval_file re conv prog fuel d1) = verdict (eval_file re conv prog fuel d2).
+Proof. exact verdict_depends_on_content_only. Qed.
+Print Assumptions C17_verdict_depends_on_content_only.
